@@ -86,7 +86,10 @@ class Device:
             return 0
         if bRequest == 5:
             return bytes([self.state])
-        self.violations.append('unexpected request %d' % bRequest)
+        # DETACH / UPLOAD / anything else: nothing the property forbids; logged only
+        self.log.append((self.now, 'REQUEST-%d' % bRequest, None))
+        if bRequest == 2:
+            return bytes(data_or_wLength if isinstance(data_or_wLength, int) else 0)
         return 0
 
     def dnload(self, wValue, data):
@@ -99,6 +102,11 @@ class Device:
                 raise USBError('[Errno 32] Pipe error (device stalled the request: it is in dfuERROR)')
             # lenient device: silently leaves the error state and carries on
             self.state, self.status = IDLE, 0
+        if len(data) == 0:
+            # zero-length DNLOAD = end of download / DfuSe "leave": no erase, no write; manifestation is not modelled further
+            self.log.append((self.now, 'LEAVE', None))
+            self.state = IDLE
+            return 0
         self.pending = (wValue, data)
         k = self.nops
         self.busy_left = list(self.busy.get(k, self.default_busy))
@@ -160,8 +168,7 @@ class Device:
             self.violations.append('DNLOAD with wValue=1 is reserved in DfuSe')
             return 15
         if self.pointer is None:
-            self.violations.append('data block sent before any address pointer was set')
-            return 8
+            self.pointer = 0          # DfuSe bootloaders start with the pointer at the flash base
         a = self.pointer + (wValue - 2) * PAGE
         if a < 0 or a + len(d) > len(self.flash):
             self.violations.append('write of %d bytes at %#x runs outside the device flash' % (len(d), FLASH_BASE + a))
